@@ -250,6 +250,7 @@ func (p *Path) selectOp(fr *Frame, x *ssa.Select) Value {
 		return res
 	}
 	counted := false
+	pushedHere := false // a verif_EnvCaller request was queued on a buffered channel during this visit
 	// only selects that listen to the environment are steps of the loop under test; incidental
 	// selects (lifecycle helpers etc.) neither consume the budget nor define quiescence
 	isLoopSelect := false
@@ -336,6 +337,11 @@ func (p *Path) selectOp(fr *Frame, x *ssa.Select) Value {
 		// a caller of the component (verif_EnvCaller) sending on a BUFFERED channel returns as soon
 		// as the value is queued: the send is an event of its own, the receive happens later
 		var pushable []*ChanObj
+		if pushedHere {
+			// the caller's request was queued while the loop was not looking (busy, or parked and
+			// then woken by it): the loop cannot now wait for something that has not happened yet
+			ntasks, idleOpt = 0, 0
+		}
 		if e.inTask == 0 {
 			for _, s := range states {
 				if ch := s.ch; !s.send && ch != nil && ch.envPush && ch.cap > 0 && ch.envGen != nil && ch.envCount < ch.envLimit && len(ch.buf) < ch.cap {
@@ -352,6 +358,8 @@ func (p *Path) selectOp(fr *Frame, x *ssa.Select) Value {
 				v = iv.v
 			}
 			ch.buf = append(ch.buf, v)
+			p.log = append(p.log, "queued:"+ch.label)
+			pushedHere = true
 			continue
 		}
 		if c >= len(ready)+ntasks {
